@@ -425,8 +425,11 @@ def static_inventory(ctx):
             ctx.extra["translator"]["opreads"]["status"] = "translator_fallback"
         else:
             tab = ores["table"]
-            advisory_file(ctx, os.path.join(C.COQ, "genproofs", "GenOpReadsProofs.v"), [(ctx.gen_dir, "PqGen")],
-                          {"slot_read_by_an_operation_and_written_non_idempotently": ores["offenders"][:10]})
+            # HARD: table_disciplined is the premise C20_table_ops_disciplined / _confluent are instantiated with on the regenerated
+            # table; when it no longer checks the property is no longer shown to hold (VIOLATION, concrete if the search finds a run)
+            ok3, _ = ctx.coq_file(os.path.join(C.COQ, "genproofs", "GenOpReadsProofs.v"), extra_q=[(ctx.gen_dir, "PqGen")])
+            if not ok3:
+                ctx.extra["op_table_offenders"] = ores["offenders"][:12]
             INV["optable"] = tab
             d_ = json.load(open(INV["path"]))         # the workers need the read sets too (unread locations are volatile)
             d_["optable"] = {"rows": [{"op": r_["op"], "reads": r_["reads"]} for r_ in tab["rows"]]}
